@@ -2754,6 +2754,9 @@ class TrackFragmentRunBox(FullBox):
     sample_flags_present: ClassVar[int] = 0x000400  # sample has its own flags
     sample_composition_time_offsets_present: ClassVar[int] = 0x000800  # sample has a composition time offset
 
+    # largest number of samples in one fragment that the parser accepts
+    MAX_SAMPLE_COUNT: ClassVar[int] = 100000
+
     OBJECT_FIELDS = {
         'samples': ListOf(TrackSample),
         **FullBox.OBJECT_FIELDS,
@@ -2782,6 +2785,10 @@ class TrackFragmentRunBox(FullBox):
         # print('Trun: count=%d offset=%d flags=%x'%(rv["sample_count,rv["data_offset,rv["first_sample_flags))
         rv["samples"] = []
         offset = rv["data_offset"]
+        if sample_count > clz.MAX_SAMPLE_COUNT:
+            # when the samples use the defaults of the tfhd box, they do not
+            # take any space in this box and nothing else limits this loop
+            raise ValueError(f'trun: sample_count {sample_count} is too large')
         for i in range(sample_count):
             ts = TrackSample.parse(src, i, offset, rv, tfhd)
             ts = TrackSample(**ts)
